@@ -134,6 +134,7 @@ def rule_HO(run: Run) -> RuleResult:
         if want is None:
             res.notes.append(f"helper {name} has no table row (form: {form}) — not judged")
             continue
+        want = want.replace("ID >> ", "")        # (the empty pipeline in front of a chain is the chain: see stepsem)
         res.add(f"labrea.functions.{name}:operand order", form == want, f, node.lineno,
                 f"derived `{form}`" + ("" if form == want else f" — documented behaviour is `{want}`"), nec)
     missing = sorted(set(EXPECTED) - set(sems))
